@@ -6,6 +6,7 @@ CONSTANTS
   Bug = "none"
   MaxLen = 2
   DumpCases = FALSE
+  Uni = "full"
 INVARIANTS ElemsDenoteSame ElemsSubset RebuildSame
 CHECK_DEADLOCK FALSE
 """
